@@ -262,6 +262,32 @@ def check_twin(ld, prog, seed, rngkind, res):
         if pe != a:
             res.violation('prefetch-differs-from-twin', {**case, 'prefetch': pf},
                           {'a': a, 'prefetched': pe}, sig={**sig, 'prefetch': pf})
+            continue
+        # two iterations of ONE pool-prefetching dataset in flight (the pool
+        # path freezes the order per iteration, so each iteration is one epoch
+        # of the twin): start the first, run the second to its end, then
+        # finish the first
+        if pf == 'p2t' and stage in ('reshuffle', 'apply_reshuffle') and n >= 2 \
+                and not sig['shared_random_stage']:
+            try:
+                pds = build(ld, prog, seed, rngkind).prefetch(2, 2, 't')
+                np.random.seed(71)
+                it1 = iter(pds)
+                first = [next(it1)]
+                second = list(pds)
+                first += list(it1)
+            except BaseException as e:
+                res.violation('prefetch-differs-from-twin', {**case, 'prefetch': pf,
+                                                             'two_iterators': True},
+                              exc_sig(e), sig={**sig, 'prefetch': pf, 'two_iterators': True})
+                continue
+            res.count('prefetch_two_iterators_in_flight_comparisons')
+            if first != a[0] or second != a[1]:
+                res.violation('prefetch-differs-from-twin',
+                              {**case, 'prefetch': pf, 'two_iterators': True},
+                              {'twin_epochs': a[:2], 'first_started': first,
+                               'second_started': second},
+                              sig={**sig, 'prefetch': pf, 'two_iterators': True})
     if len(res.samples) < 2 and nontrivial:
         res.sample({'prog': prog, 'seed': seed, 'rng': rngkind, 'epochs': a})
 
